@@ -407,7 +407,7 @@ class GlobalAccess""")], None),
 
     def unquantify(self, c: Constant, /):""")], 'C14.R3'),
         ('readonly-not-enabled', [('pytableaux/lang/__init__.py', "    lex.nosetattr.enabled = True\n", "")], 'C14.R3'),
-        ('hash-from-spec', [(LEX, "        return hash((__class__, item.sort_tuple))", "        return hash((__class__, item.spec))")], 'C14.R1'),
+        ('hash-from-spec', [(LEX, "        return hash(item.sort_tuple)", "        return hash(item.spec)")], 'C14.R1'),
     ],
     'C15': [
         ('predicated-substitute-first-only', [(LEX, "        return self.predicate(pnew if p == pold else p for p in self)", "        return self.predicate(pnew if p == pold and i == 0 else p for i, p in enumerate(self))")], 'C15.R1'),
@@ -546,3 +546,45 @@ REFACTORS.update({
         ('tree-count-explicit-sum', [(TAB, "                tree.descendant_node_count += len(child.nodes) + child.descendant_node_count", "                tree.descendant_node_count = tree.descendant_node_count + len(child.nodes) + child.descendant_node_count")]),
     ],
 })
+
+# round 9
+_TONODE = """    def tonode(self):
+        \"\"\"Create node from this instance.\"\"\"
+        return AccessNode({
+            Node.Key.world1: self.world1,
+            Node.Key.world2: self.world2})"""
+for _pid, _cases in {
+    'C14': [
+        ('system-predicate-qualname-of-wrong-class', [(LEX, "        SystemPredicate.__qualname__ = 'Predicate.System'", "        SystemPredicate.__qualname__ = f'{cls.__name__}.System'")], 'C14.R6'),
+        ('system-predicate-qualname-dropped', [(LEX, "        SystemPredicate.__qualname__ = 'Predicate.System'\n", "")], 'C14.R6'),
+        ('getnewargs-returns-ident', [(LEX, "    def __getnewargs__(self):\n        return self.spec", "    def __getnewargs__(self):\n        return self.ident")], 'C14.R6'),
+    ],
+    'C15': [
+        ('quantified-key-without-variable', [(LEX, "            *q.sort_tuple,\n            *v.sort_tuple,\n            *s.sort_tuple)", "            *q.sort_tuple,\n            *s.sort_tuple)")], 'C15.R3'),
+    ],
+    'C16': [
+        ('tonode-memoised-in-default', [(PROOF, _TONODE, _TONODE.replace("def tonode(self):", "def tonode(self, _memo = {}):").replace("        return AccessNode({", "        if self in _memo:\n            return _memo[self]\n        return _memo.setdefault(self, AccessNode({").replace("Node.Key.world2: self.world2})", "Node.Key.world2: self.world2}))"))], 'C16.R7'),
+    ],
+    'C13': [
+        ('constructor-gate-tests-concrete-class', [(PARSING, "            if not isinstance(predicates, PredicatesBase):", "            if not isinstance(predicates, Predicates):")], 'C13.R2'),
+    ],
+    'C07': [
+        ('compound-over-uninterpreted-operand-uninterpreted', [(MODELS, "            return True\n        return False\n\n    def is_sentence_literal", "            return True\n        return type(s) is Operated and not self.is_sentence_literal(s) and any(map(self.is_sentence_opaque, s))\n\n    def is_sentence_literal")], 'C07.R5'),
+    ],
+    'C08': [
+        ('compound-over-uninterpreted-operand-uninterpreted', [(MODELS, "            return True\n        return False\n\n    def is_sentence_literal", "            return True\n        return type(s) is Operated and not self.is_sentence_literal(s) and any(map(self.is_sentence_opaque, s))\n\n    def is_sentence_literal")], 'C08.R6'),
+    ],
+    'C05': [
+        ('group-application-results-dropped-when-optim-off', [(TAB, "                if not is_group_optim:\n                    target.update(", "                if not is_group_optim and results.maxlen:\n                    target.update(")], 'C05.R7'),
+    ],
+}.items():
+    MUTANTS.setdefault(_pid, []).extend(_cases)
+for _pid, _cases in {
+    'C14': [
+        ('system-predicate-qualname-from-class-name', [(LEX, "        SystemPredicate.__qualname__ = 'Predicate.System'", "        SystemPredicate.__qualname__ = f'{Predicate.__qualname__}.{SystemPredicate.__name__}'")]),
+    ],
+    'C13': [
+        ('store-guard-de-morgan', [(PARSING, "            if not self.opts['auto_preds'] or not isinstance(self.predicates, Predicates):", "            if not (self.opts['auto_preds'] and isinstance(self.predicates, Predicates)):", 2)]),
+    ],
+}.items():
+    REFACTORS.setdefault(_pid, []).extend(_cases)
